@@ -10,6 +10,9 @@
 (*   only while one is in flight) | reraise (the very exception received)  *)
 (*   | push (registers one more callback on the stack being unwound: it    *)
 (*   runs next, in the same unwind -- callbacks are popped one at a time)  *)
+(*   | popall (calls pop_all() on the stack being unwound: the exits not   *)
+(*   yet run now belong to the new stack and this unwind is over; if a new *)
+(*   stack exists already the exit just returns)                           *)
 (*                                                                         *)
 (* History actions: Register, EnterFail (enter_context whose enter raises: *)
 (* nothing registered), PopAll, Leave(outcome) / Aclose = start an unwind, *)
@@ -26,7 +29,7 @@ EXTENDS Integers, Sequences, FiniteSets, TLC, Json, CSV
 CONSTANTS MaxEntries, MaxOps, EdgeFile
 
 Kinds == {"exit", "cb"}
-Behs == {"falsy", "truthy", "raise", "raisewh", "reraise", "push"}
+Behs == {"falsy", "truthy", "raise", "raisewh", "reraise", "push", "popall"}
 BlockExc == 100                 \* the exception the with-block raised
 ExcOf(e) == 200 + e             \* the new exception raised by entry e
 
@@ -98,6 +101,7 @@ RunExit ==
          newx == IF b = "reraise" THEN seen ELSE ExcOf(e)
          truthy == b = "truthy" /\ kind[e] # "cb"
          rest == SubSeq(unw.todo, 1, Len(unw.todo) - 1)
+         pop == b = "popall" /\ unw.which = "main" /\ ~popped    \* pop_all() from inside the unwind
          e2 == nent + 1                                     \* the callback a "push" exit registers
          pos == CHOOSE j \in 1..Len(unw.all) : unw.all[j] = e IN
      /\ ran' = [ran EXCEPT ![e] = @ + 1]
@@ -106,15 +110,18 @@ RunExit ==
         THEN /\ nent' = e2
              /\ kind' = [kind EXCEPT ![e2] = "cb"] /\ beh' = [beh EXCEPT ![e2] = "falsy"]
         ELSE UNCHANGED <<nent, kind, beh>>
-     /\ unw' = [unw EXCEPT !.todo = IF b = "push" THEN Append(rest, e2) ELSE rest,
+     /\ moved' = IF pop THEN rest ELSE moved
+     /\ popped' = (popped \/ pop)
+     /\ unw' = [unw EXCEPT !.todo = IF b = "push" THEN Append(rest, e2) ELSE IF pop THEN <<>> ELSE rest,
                            !.all = IF b = "push"
                                    THEN SubSeq(unw.all, 1, pos - 1) \o <<e2>> \o SubSeq(unw.all, pos, Len(unw.all))
+                                   ELSE IF pop THEN SubSeq(unw.all, pos, Len(unw.all))   \* what this unwind did run
                                    ELSE unw.all,
                            !.exc = IF raises THEN newx ELSE IF truthy THEN 0 ELSE x,
                            !.sup = IF raises THEN unw.sup ELSE IF truthy THEN TRUE ELSE unw.sup,
                            !.rer = IF raises THEN TRUE ELSE IF truthy THEN FALSE ELSE unw.rer]
      /\ last' = <<"exit", e, IF seen = 0 THEN "none" ELSE IF seen = BlockExc THEN "block" ELSE "new", "-">>
-  /\ UNCHANGED <<main, moved, popped, outcome, nops>>
+  /\ UNCHANGED <<main, outcome, nops>>
 
 \* the loop is over: raise the exception in flight, or report suppression  [461-470]
 ResultOf(u) ==
@@ -145,6 +152,7 @@ AfterExit(e, x) ==
     [] beh[e] = "raisewh" -> IF seen # 0 THEN ExcOf(e) ELSE x
     [] beh[e] = "reraise" -> x
     [] beh[e] = "push" -> x
+    [] beh[e] = "popall" -> x
 RECURSIVE Nested(_, _)
 Nested(stack, x) == IF stack = <<>> THEN x
                     ELSE Nested(SubSeq(stack, 1, Len(stack) - 1), AfterExit(stack[Len(stack)], x))
